@@ -118,6 +118,7 @@ type Stats struct {
 	assertUnknown int64
 	funcs         map[string]bool
 	perHarness    map[string]int64
+	inconcPerH    map[string]int64
 	covers        map[string]int64
 	samples       []Sample
 	validate      []*Vector
@@ -132,7 +133,7 @@ type Sample struct {
 }
 
 func newStats() *Stats {
-	return &Stats{inconclusive: map[string]int64{}, funcs: map[string]bool{}, perHarness: map[string]int64{}, covers: map[string]int64{}}
+	return &Stats{inconclusive: map[string]int64{}, funcs: map[string]bool{}, perHarness: map[string]int64{}, inconcPerH: map[string]int64{}, covers: map[string]int64{}}
 }
 
 func (s *Stats) fnSeen(fi *fnInfo) {
@@ -160,6 +161,9 @@ func (s *Stats) merge(o *Stats) {
 	}
 	for k, v := range o.perHarness {
 		s.perHarness[k] += v
+	}
+	for k, v := range o.inconcPerH {
+		s.inconcPerH[k] += v
 	}
 	for k, v := range o.covers {
 		s.covers[k] += v
@@ -463,6 +467,7 @@ func (ex *Exec) runPath(it workItem, harnessNames []string, cfg *runConfig) {
 						}
 					}
 					ex.st.inconclusive[x.msg]++
+					ex.st.inconcPerH[ex.harness]++
 					ex.st.paths++
 					outcome = "inconclusive"
 				case "unwind":
